@@ -250,8 +250,18 @@ Definition part_agree_b (flat m i : graph) : bool :=
   list_eqb sg_eqb (g_sgs m) (g_sgs i) && list_eqb N.eqb (g_topo m) (g_topo i) &&
   list_eqb loop_eqb (g_loops m) (g_loops i).
 
-(* verdict code for the checks: 0 = the model predicts the implementation's whole output *)
+(* [flat_ok_b]: what FlatGraphBuilder guarantees about a flat graph and the model needs; decidable,
+   and evaluated on every real flat graph by the C18 check (bit 0). *)
+Definition flat_ok_b (T : optable) (g : graph) : bool :=
+  nodup_b (node_ids g) && nodup_b (map e_id (g_edges g)) &&
+  forallb (fun e => memN (e_src e) (node_ids g) && memN (e_dst e) (node_ids g)) (g_edges g) &&
+  deps_closed_b T g &&
+  forallb (fun n => match n_kind n with KMod => false | _ => true end) (g_nodes g).
+
+
+(* verdict code for the checks: 0 = the front-end guarantees hold and the model predicts the implementation's whole output *)
 Definition full_check (T : optable) (flat : graph) (impl : option graph) : N :=
+  if negb (flat_ok_b T flat) then 1 else
   match partition_model T flat, impl with
   | POk m, Some i => if part_agree_b flat m i then 0 else 1
   | POk _, None => 1
